@@ -47,4 +47,37 @@ impl Cursor {
         self.record(n);
         Ok(())
     }
+
+    /// the guard lives in the closure of an Option combinator (engine/vplib/inline.py expand_combinators)
+    pub fn via_is_some_and(&mut self, n: u32, flag: Option<u8>) -> Result<(), ()> {
+        if flag.is_some_and(|_| n > 3) {
+            return Err(());
+        }
+        self.record(n);
+        Ok(())
+    }
+
+    pub fn via_is_none_or(&mut self, n: u32, flag: Option<u8>) -> Result<(), ()> {
+        if !flag.is_none_or(|_| !(n > 3)) {
+            return Err(());
+        }
+        self.record(n);
+        Ok(())
+    }
+
+    pub fn via_map_or(&mut self, n: u32, flag: Option<u8>) -> Result<(), ()> {
+        if flag.map_or(false, |_| n > 3) {
+            return Err(());
+        }
+        self.record(n);
+        Ok(())
+    }
+
+    pub fn via_filter(&mut self, n: u32, flag: Option<u8>) -> Result<(), ()> {
+        if let Some(_) = flag.filter(|_| n > 3) {
+            return Err(());
+        }
+        self.record(n);
+        Ok(())
+    }
 }
